@@ -604,6 +604,12 @@ fn check_rel(case: &Case, rec: &mut Rec, reg: Reg, strict: bool) -> CaseResult {
                     continue;
                 }
                 (false, false) => {}
+                // laea takes asin of an argument that is exactly +-1 for the image of a pole: its last bit
+                // decides between NaN and +-pi/2 (same saturation as the sec(lat) model below)
+                (ln, _) if case.proj == Laea && p.tol != Tol::Identical && (if ln { r[1] } else { l[1] }).cos().abs() < 1e-6 => {
+                    rec.count(&format!("pole_asin_nan_tolerated:{label}"), 1);
+                    continue;
+                }
                 _ => vfail!(
                     format!("nan-mismatch:{rel}@{label}/{dirs}"),
                     "{rel}: '{}' inverse of {} gives {} but '{}' inverse of {} gives {}: one of them is NaN",
@@ -645,6 +651,10 @@ fn check_rel(case: &Case, rec: &mut Rec, reg: Reg, strict: bool) -> CaseResult {
     rec.class(&format!("{label}/{dirs}"));
     rec.count(&format!("ellps:{}", if case.ellps.contains(',') { "(a,rf)" } else { &case.ellps }), 1);
     rec.count("point_comparisons", case.pts.len() as u64);
+    rec.count("exact_pole_points", case.pts.iter().filter(|p| p[1].0.abs() == 90.0).count() as u64);
+    rec.count("exact_equator_points", case.pts.iter().filter(|p| p[1].0 == 0.0).count() as u64);
+    rec.count("exact_central_meridian_points", case.pts.iter().filter(|p| p[0].0 == 0.0).count() as u64);
+    rec.count("exact_antimeridian_points", case.pts.iter().filter(|p| p[0].0.abs() == 180.0).count() as u64);
     if p.param_nontrivial {
         if let Some(i) = offaxis {
             rec.nontrivial(&format!(
@@ -848,6 +858,87 @@ fn point(proj: Proj, bg: &Bg, (u, v, s): (f64, f64, u8)) -> [F; 2] {
         Somerc => offset(bg.lat_0.map(|f| f.0).unwrap_or(0.0), u.abs() * 10.0, v * 180.0),
     };
     [F(d), F(phi)]
+}
+
+/// Exact boundary points of the domain, (longitude offset, latitude) in degrees: latitude exactly
+/// +-90 where a finite image exists (lcc apex pole, tmerc/utm/btmerc/butm poles, laea poles within its
+/// 150 degree disc, the centre of the polar laea), the opposite pole of lcc (NaN on both sides), latitude
+/// exactly 0 and -0, longitude exactly on the central meridian, and lon_0 +- 180 where the projection is
+/// defined there. `dr`, `pr`: a generic longitude offset and latitude of the domain.
+fn boundary_points(proj: Proj, bg: &Bg, dr: f64, pr: f64) -> Vec<[F; 2]> {
+    let dist = |lat0: f64, d: f64, phi: f64| -> f64 {
+        vcore::refmath::great_circle(1.0, 0.0, lat0.to_radians(), d.to_radians(), phi.to_radians()).0.to_degrees()
+    };
+    let mut v: Vec<(f64, f64)> = vec![];
+    match proj {
+        Merc | Webmerc => {
+            // no finite image of the poles
+            v.extend([(dr, 0.0), (dr, -0.0), (0.0, pr), (0.0, 0.0), (180.0, pr), (-180.0, pr), (180.0, -0.0)]);
+        }
+        Tmerc | Utm | Btmerc | Butm => {
+            v.extend([(dr, 90.0), (dr, -90.0), (0.0, 90.0), (0.0, -90.0), (dr, 0.0), (dr, -0.0), (0.0, pr), (0.0, -0.0)]);
+        }
+        Lcc => {
+            let sign = sgn(bg.lat_1.map(|f| f.0).unwrap_or(1.0));
+            v.extend([
+                (dr, sign * 90.0),
+                (0.0, sign * 90.0),
+                (180.0, sign * 90.0),
+                (dr, -sign * 90.0), // opposite pole: NaN, on both sides
+                (dr, 0.0),
+                (dr, -0.0),
+                (0.0, pr),
+                (180.0, pr),
+                (-180.0, pr),
+            ]);
+        }
+        Laea => {
+            let lat0 = bg.lat_0.map(|f| f.0).unwrap_or(0.0);
+            let cand = [
+                (0.0, lat0), // the centre (a pole for the polar aspects)
+                (dr, 90.0),
+                (dr, -90.0),
+                (dr.clamp(-90.0, 90.0), 0.0),
+                (dr.clamp(-90.0, 90.0), -0.0),
+                (0.0, pr),
+                (180.0, pr),
+                (-180.0, pr),
+                (180.0, 90.0 * sgn(lat0)),
+            ];
+            for c in cand {
+                if dist(lat0, c.0, c.1) <= 150.0 {
+                    v.push(c);
+                }
+            }
+        }
+        Omerc => {
+            let latc = bg.latc.map(|f| f.0).unwrap_or(0.0);
+            v.extend([(0.0, latc), (dr, latc), (0.0, pr)]);
+            if latc.abs() <= 10.0 {
+                v.extend([(dr, 0.0), (dr, -0.0)]);
+            }
+        }
+        Somerc => {
+            let lat0 = bg.lat_0.map(|f| f.0).unwrap_or(0.0);
+            v.extend([(0.0, lat0), (dr, lat0), (0.0, pr)]);
+            if lat0.abs() <= 10.0 {
+                v.extend([(dr, 0.0), (dr, -0.0), (0.0, -0.0)]);
+            }
+        }
+    }
+    v.into_iter().map(|(d, p)| [F(d), F(p)]).collect()
+}
+
+/// Overwrite the leading points of a case with exact boundary points: the first of the list (for lcc the
+/// apex pole) always, then `extra` more, cycling through the list from `start`
+fn place_boundaries(pts: &mut [[F; 2]], list: &[[F; 2]], start: usize, extra: usize) {
+    if list.is_empty() || pts.is_empty() {
+        return;
+    }
+    pts[0] = list[0];
+    for i in 0..extra.min(pts.len().saturating_sub(1)).min(list.len()) {
+        pts[1 + i] = list[(start + i) % list.len()];
+    }
 }
 
 fn projs_for(kind: Kind, reg: Reg) -> Vec<Proj> {
@@ -1080,6 +1171,12 @@ fn build(kind: Kind, r: &Raw, reg: Reg, force: Option<Force>) -> Case {
         }
     };
     let mut pts: Vec<[F; 2]> = r.pts.iter().map(|p| point(proj, &bg, *p)).collect();
+    {
+        // every case carries exact boundary points (deterministically: 1 fixed + 3 cycling)
+        let g = point(proj, &bg, (r.u[1], r.u[2], 9));
+        let list = boundary_points(proj, &bg, g[0].0, g[1].0);
+        place_boundaries(&mut pts, &list, r.mask as usize + r.aspect as usize, 3);
+    }
     if matches!(rel, Rel::Lonc { .. }) {
         // omerc with alpha = 90 is discontinuous along lon = lonc (u jumps by 2 u_c with the sign of
         // lonc - lon, i.e. with the sign of a zero): the extra relation is not posed on that meridian
@@ -1255,7 +1352,7 @@ fn main() {
         let n = 60 * 2 * 2 * nell * 2;
         run.enumerate(
             "utm-zones",
-            "all 60 zones x north/south x {utm vs tmerc, butm vs btmerc} x every usable built-in ellipsoid x {forward, inverse}; 16 points per case within 30 deg (utm) / 3 deg (butm) of the zone's central meridian, |lat| <= 89 / 85, one of them on the central meridian and one on the equator; y_0=0 written explicitly in half of the northern cases",
+            "all 60 zones x north/south x {utm vs tmerc, butm vs btmerc} x every usable built-in ellipsoid x {forward, inverse}; 16 points per case within 30 deg (utm) / 3 deg (butm) of the zone's central meridian, |lat| <= 89 / 85, one of them on the central meridian and one on the equator, six exact boundary points (poles, latitude 0 and -0, central meridian); y_0=0 written explicitly in half of the northern cases",
             n,
             move |i| {
                 let zone = (i % 60) as u8 + 1;
@@ -1274,7 +1371,11 @@ fn main() {
                         };
                         point(proj, &bg, (h11(i as u64, 2 * j), h11(i as u64, 2 * j + 1), s))
                     })
-                    .collect();
+                    .collect::<Vec<[F; 2]>>();
+                let mut pts = pts;
+                let g = pts[15];
+                let list = boundary_points(proj, &bg, g[0].0, g[1].0);
+                place_boundaries(&mut pts[3..], &list, i / 7, 5);
                 Case { proj, ellps: e.0.clone(), a: F(e.1), rf: F(e.2), bg, rel: Rel::UtmZone { explicit_y0: zone % 2 == 0 }, fwd, pts }
             },
             strict,
